@@ -279,9 +279,9 @@ fn one_entry_node<'a>(k0: &'a [u8; 2], v0: &'a [u8; 1]) -> Node<'a> {
 
 // ---- C05-Ob3: Node::write frees the old run (pending, not reusable), takes a fresh run, records it, and the
 //      dirty page carries the node
-// @ob props=C05,C02,C10,C01 tier=parked cap=400 fns=Node::write,Node::allocate,Node::free_page,TxFreelist::free,TxFreelist::allocate,Page::write_node bound="one-entry leaf backed by run (7, 2 pages); tx id 9; high-water mark 20; empty free set; symbolic key / value bytes" unwind=5
+// @ob props=C05,C02,C10,C01 tier=quick cap=400 fns=Node::write,Node::allocate,Node::free_page,TxFreelist::free,TxFreelist::allocate,Page::write_node bound="one-entry leaf backed by run (7, 2 pages); tx id 9; high-water mark 20; empty free set; symbolic key / value bytes" unwind=9
 #[kani::proof]
-#[kani::unwind(5)]
+#[kani::unwind(9)]
 fn node_write_reallocates() {
     let k0: [u8; 2] = kani::any();
     let v0: [u8; 1] = kani::any();
@@ -451,4 +451,312 @@ fn node_split_partition() {
     kani::cover!(pieces == 1 && total >= ps, "over-full but unsplittable");
     std::mem::forget(r);
     std::mem::forget(node);
+}
+
+// ---- Node::split / Node::write / Node::spill on BRANCH nodes.
+// (The byte size of a key/value LEAF entry is not a constant for CBMC's symbolic execution -- the two variants of
+//  `Leaf` overlay a slice length with a pointer field and a union value is normalised through the other variant, see
+//  DESIGN.md 10.1 -- so every size-driven decision forks and leaf versions of these harnesses run out of memory.
+//  Branch entries are plain structs: sizes fold, and the split / write / spill logic is shared by both kinds.)
+fn branch_keys() -> [[u8; 16]; 6] {
+    let mut k: [[u8; 16]; 6] = kani::any();
+    let mut i = 0;
+    while i < 6 {
+        k[i][0] = 10 * (i as u8 + 1); // ascending by the first byte; the other 15 bytes of every key symbolic
+        i += 1;
+    }
+    k
+}
+
+fn branch_node<'a>(k: &'a [[u8; 16]; 6], n: usize, pagesize: u64) -> Node<'a> {
+    let mut v = Vec::with_capacity(6);
+    let mut i = 0;
+    while i < 6 {
+        if i < n {
+            v.push(Branch { key: Bytes::Slice(&k[i]), page: 30 + i as u64 });
+        }
+        i += 1;
+    }
+    let mut node = Node::new(0, Page::TYPE_BRANCH, pagesize);
+    node.data = NodeData::Branches(v);
+    node.original_key = Some(Bytes::Slice(&k[0]));
+    node
+}
+
+fn branches<'a, 'b>(n: &'b Node<'a>) -> &'b Vec<Branch<'a>> {
+    match &n.data {
+        NodeData::Branches(b) => b,
+        _ => panic!("not a branch"),
+    }
+}
+
+/// entries [from, from + cnt) of the original six, in order, with their child page ids
+fn piece_is(n: &Node, k: &[[u8; 16]; 6], from: usize, cnt: usize) -> bool {
+    let b = branches(n);
+    let mut ok = b.len() == cnt;
+    let mut i = 0;
+    while i < 6 {
+        if i < cnt && i < b.len() {
+            ok = ok && b[i].page == 30 + (from + i) as u64 && b[i].key()[0] == k[from + i][0] && b[i].key()[15] == k[from + i][15] && b[i].key().len() == 16;
+        }
+        i += 1;
+    }
+    ok
+}
+
+// ---- C01 / C05: Node::split: 6 entries of 40 bytes on 128-byte pages are cut where the running size passes half a
+//      page, every piece keeps two entries, order and content are preserved, the pieces are registered with the bucket
+// @ob props=C01,C05,C16 tier=quick cap=600 mem=6 fns=Node::split,Node::size,NodeData::size,NodeData::split_at,InnerBucket::new_node,Node::with_data bound="branch node, 6 entries with 16-byte keys (first byte fixes the order, 15 symbolic bytes each), page size 128: three pieces of two" unwind=8
+#[kani::proof]
+#[kani::unwind(8)]
+fn node_split_branch_three_pieces() {
+    let k = branch_keys();
+    let mut node = branch_node(&k, 6, 128);
+    let b = crate::cursor::jv::mk_bucket(3, true);
+    let mut ib = b.inner.borrow_mut();
+    let r = node.split(&mut ib);
+    assert!(r.is_some(), "JV-C01-SPLIT: a node larger than its page is split");
+    if let Some(sibs) = &r {
+        assert!(sibs.len() == 2, "JV-C01-SPLIT: cut where the running size passes half a page, at least two entries per piece");
+        assert!(piece_is(&node, &k, 0, 2), "the node keeps the first piece");
+        assert!(ib.nodes.len() == 2, "the new pieces are registered with the bucket");
+        if sibs.len() == 2 {
+            let s0 = sibs[0].borrow();
+            let s1 = sibs[1].borrow();
+            assert!(piece_is(&s0, &k, 2, 2) && piece_is(&s1, &k, 4, 2), "JV-C01-SPLIT: the pieces partition the entries in order, nothing lost or duplicated");
+            assert!(s0.id == 0 && s1.id == 1 && s0.page_id == 0 && s1.page_id == 0 && !s0.deleted);
+            assert!(s0.original_key.as_ref().map(|x| x.as_ref()[0]) == Some(k[2][0]), "a new piece is known by its first key");
+        }
+    }
+    std::mem::forget(r);
+    std::mem::forget(node);
+    std::mem::forget(ib);
+}
+
+// @ob props=C01,C05,C16 tier=quick cap=600 mem=6 fns=Node::split,Node::size,NodeData::size bound="branch node, 6 entries with 16-byte keys (280 bytes) on 512-byte pages, and 4 such entries on 128-byte pages: not split" unwind=8
+#[kani::proof]
+#[kani::unwind(8)]
+fn node_split_branch_not_needed() {
+    let k = branch_keys();
+    let b = crate::cursor::jv::mk_bucket(3, true);
+    let mut ib = b.inner.borrow_mut();
+    let mut fits = branch_node(&k, 6, 512);
+    assert!(fits.split(&mut ib).is_none(), "a node that fits its page is left alone");
+    assert!(piece_is(&fits, &k, 0, 6));
+    let mut few = branch_node(&k, 4, 128);
+    assert!(few.split(&mut ib).is_none(), "four entries are never split (two pieces of two are the minimum)");
+    assert!(piece_is(&few, &k, 0, 4) && ib.nodes.len() == 0);
+    std::mem::forget(fits);
+    std::mem::forget(few);
+    std::mem::forget(ib);
+}
+
+// ---- C05-Ob3: Node::write through the real TxFreelist: the old run goes to pending (not reusable in this
+//      transaction), a fresh run is taken at the high-water mark, the dirty page carries the node
+// @ob props=C05,C02,C10,C01 tier=quick cap=600 mem=8 fns=Node::write,Node::allocate,Node::free_page,Node::size,TxFreelist::free,TxFreelist::allocate,Freelist::allocate,Page::write_node bound="branch node with 2 entries (16-byte keys, symbolic) backed by run (7, 2 pages); tx id 9; high-water mark 20; empty free set; page size 256" unwind=9
+#[kani::proof]
+#[kani::unwind(9)]
+fn node_write_branch_reallocates() {
+    let k = branch_keys();
+    let mut tf = TxFreelist::new(mk_meta(256, 20, 9), Freelist::new());
+    let mut n = branch_node(&k, 2, 256);
+    n.page_id = 7;
+    n.num_pages = 2;
+    let r = n.write(&mut tf);
+    assert!(r.is_ok());
+    std::mem::forget(r);
+    assert!(n.page_id == 20 && n.num_pages == 1, "JV-C05-WRITE: rewritten to a fresh run at the high-water mark");
+    assert!(tf.meta.num_pages == 21);
+    assert!(tf.pages.len() == 1);
+    let (ptr, len) = *tf.pages.get(&20).unwrap();
+    assert!(len as u64 == 40 + 2 * 40, "the dirty map records the node's byte length");
+    let base = ptr.as_ptr() as *const u8;
+    assert!(rd64(base, 0) == 20 && unsafe { *base.add(8) } == 1 && rd64(base, 16) == 2 && rd64(base, 24) == 0, "page header: id, branch, count, overflow");
+    assert!(rd64(base, 32) == 30 && rd64(base, 32 + 24) == 31, "child page ids");
+    assert!(unsafe { *base.add(80) } == k[0][0] && unsafe { *base.add(80 + 15) } == k[0][15] && unsafe { *base.add(96) } == k[1][0], "keys follow the element headers");
+    let p = crate::freelist::jv::pending_of(&tf.inner, 9).unwrap();
+    assert!(p.len() == 2 && p[0] == 7 && p[1] == 8, "JV-C05-WRITE: the old run is pending under this transaction, once");
+    assert!(crate::freelist::jv::n_free(&tf.inner) == 0, "nothing freed in this transaction is reusable in it");
+    std::mem::forget(n);
+    std::mem::forget(tf);
+}
+
+// ---- C01-Ob5 / C05: Node::spill of a root that fits: written once, its new page id is reported as the new root;
+//      a second spill is a no-op
+// @ob props=C01,C05,C02 tier=quick cap=600 mem=8 fns=Node::spill,Node::split,Node::write,Node::allocate,TxFreelist::allocate,Page::write_node bound="root branch node with 2 entries (16-byte keys, symbolic), no materialised children, backed by page 7; page size 256; high-water mark 20" unwind=9
+#[kani::proof]
+#[kani::unwind(9)]
+fn node_spill_branch_root_fits() {
+    let k = branch_keys();
+    let b = crate::cursor::jv::mk_bucket(3, true);
+    let mut ib = b.inner.borrow_mut();
+    let mut tf = TxFreelist::new(mk_meta(256, 20, 9), Freelist::new());
+    let mut n = branch_node(&k, 2, 256);
+    n.page_id = 7;
+    n.num_pages = 1;
+    let r = n.spill(&mut ib, &mut tf, None);
+    assert!(matches!(r, Ok(Some(20))), "JV-C01-SPILL: the root reports the page it was written to");
+    std::mem::forget(r);
+    assert!(n.page_id == 20 && tf.pages.len() == 1 && tf.meta.num_pages == 21 && ib.nodes.len() == 0);
+    let p = crate::freelist::jv::pending_of(&tf.inner, 9).unwrap();
+    assert!(p.len() == 1 && p[0] == 7);
+    let again = n.spill(&mut ib, &mut tf, None);
+    assert!(matches!(again, Ok(None)), "a node is spilled once per commit");
+    std::mem::forget(again);
+    assert!(tf.pages.len() == 1 && tf.meta.num_pages == 21);
+    std::mem::forget(n);
+    std::mem::forget(tf);
+    std::mem::forget(ib);
+}
+
+// ---- C01-Ob5 / C05: Node::spill of a root that has to be split: every piece is written to its own run, a new
+//      root branch is created over them (first key and page of every piece, in order), written, and reported;
+//      the old page -- and the page of the superseded first write -- are pending, once each
+// @ob props=C01,C05,C02 tier=quick cap=700 mem=10 fns=Node::spill,Node::split,Node::write,Node::allocate,Branch::from_node,InnerBucket::new_node,TxFreelist::allocate,TxFreelist::free,Page::write_node bound="root branch node with 5 entries (16-byte keys, symbolic), no materialised children, backed by page 7; page size 128; high-water mark 20: two pieces (the second spans two pages) and a new root" unwind=9
+#[kani::proof]
+#[kani::unwind(9)]
+fn node_spill_branch_root_splits() {
+    let k = branch_keys();
+    let b = crate::cursor::jv::mk_bucket(3, true);
+    let mut ib = b.inner.borrow_mut();
+    let mut tf = TxFreelist::new(mk_meta(128, 20, 9), Freelist::new());
+    let mut n = branch_node(&k, 5, 128);
+    n.page_id = 7;
+    n.num_pages = 1;
+    let r = n.spill(&mut ib, &mut tf, None);
+    assert!(r.is_ok());
+    let root = match &r {
+        Ok(Some(p)) => *p,
+        _ => 0,
+    };
+    std::mem::forget(r);
+    assert!(ib.nodes.len() == 2, "the new piece and the new root are registered with the bucket");
+    let s0 = ib.nodes[0].borrow();
+    let top = ib.nodes[1].borrow();
+    assert!(piece_is(&n, &k, 0, 2) && piece_is(&s0, &k, 2, 3), "JV-C01-SPLIT: the pieces partition the entries in order");
+    assert!(n.num_pages == 1 && s0.num_pages == 2 && top.num_pages == 1, "a piece of 160 bytes takes a run of two 128-byte pages");
+    assert!(root == top.page_id && root != 0, "JV-C01-SPILL: the new root's page is reported");
+    let tb = branches(&top);
+    assert!(tb.len() == 2, "the new root has one entry per piece");
+    if tb.len() == 2 {
+        assert!(tb[0].page == n.page_id && tb[1].page == s0.page_id, "JV-C01-SPILL: the new root points at the pieces, in order");
+        assert!(tb[0].key()[0] == k[0][0] && tb[1].key()[0] == k[2][0] && tb[1].key()[15] == k[2][15] && tb[1].key().len() == 16, "each under its first key");
+    }
+    // accounting: every page from the old high-water mark to the new one belongs to exactly one live run or is
+    // pending exactly once; the page the root came from is pending once
+    let hw = tf.meta.num_pages;
+    let p = crate::freelist::jv::pending_of(&tf.inner, 9).unwrap();
+    assert!(hw <= 26 && p.len() <= 4);
+    let runs = [(n.page_id, n.num_pages), (s0.page_id, s0.num_pages), (top.page_id, top.num_pages)];
+    let mut id = 20;
+    while id < 26 {
+        if id < hw {
+            let mut live = 0;
+            let mut r = 0;
+            while r < 3 {
+                if runs[r].0 <= id && id < runs[r].0 + runs[r].1 {
+                    live += 1;
+                }
+                r += 1;
+            }
+            let mut pend = 0;
+            let mut j = 0;
+            while j < 4 {
+                if j < p.len() && p[j] == id {
+                    pend += 1;
+                }
+                j += 1;
+            }
+            assert!(live + pend == 1, "JV-C05-SPILL: every page taken by the spill is part of exactly one live run or given back exactly once");
+        }
+        id += 1;
+    }
+    let mut seven = 0;
+    let mut j = 0;
+    while j < 4 {
+        if j < p.len() && p[j] == 7 {
+            seven += 1;
+        }
+        j += 1;
+    }
+    assert!(seven == 1 && n.page_id != 7, "the page the root came from is given back once");
+    // the dirty page of every live run carries that node
+    let (ptr, _len) = *tf.pages.get(&s0.page_id).unwrap();
+    let base = ptr.as_ptr() as *const u8;
+    assert!(rd64(base, 0) == s0.page_id && unsafe { *base.add(8) } == 1 && rd64(base, 16) == 3 && rd64(base, 24) == 1, "page header of the two-page piece: id, branch, count 3, overflow 1");
+    std::mem::forget(n);
+    std::mem::forget(tf);
+}
+
+// ---- Node::split on a LEAF node (entry sizes concrete, key and value bytes symbolic)
+fn split_leaf_case(vlen: usize, ps: u64, exp_pieces: usize) {
+    let buf: [u8; 64] = kani::any();
+    let t: [u8; 6] = kani::any(); // second key bytes; the first byte fixes the order
+    // one FLAT array: a pointer into a nested array ([[u8; 2]; 6]) that has been stored in a heap object comes back
+    // as "first row + 10 bytes" and CBMC reads it as an out-of-bounds index of the first row (spurious failure)
+    let kb: [u8; 12] = [10, t[0], 20, t[1], 30, t[2], 40, t[3], 50, t[4], 60, t[5]];
+    let keys: [[u8; 2]; 6] = [[10, t[0]], [20, t[1]], [30, t[2]], [40, t[3]], [50, t[4]], [60, t[5]]];
+    let mut v = Vec::with_capacity(6);
+    let mut i = 0;
+    while i < 6 {
+        v.push(kv(&kb[2 * i..2 * i + 2], &buf[i..i + vlen]));
+        i += 1;
+    }
+    let mut node = leaf_node(v, ps);
+    let b = crate::cursor::jv::mk_bucket(3, true);
+    let mut ib = b.inner.borrow_mut();
+    let r = node.split(&mut ib);
+    let mut next = 0usize;
+    {
+        let first = leaves(&node);
+        assert!(first.len() >= 2);
+        let mut j = 0;
+        while j < 6 {
+            if j < first.len() {
+                assert!(first[j].key()[0] == keys[next][0] && first[j].key()[1] == keys[next][1] && first[j].value().len() == vlen && (vlen == 0 || first[j].value()[0] == buf[next]), "entries stay in order, with their values");
+                next += 1;
+            }
+            j += 1;
+        }
+    }
+    match &r {
+        None => assert!(exp_pieces == 1, "JV-C01-SPLIT: a node larger than its page is split"),
+        Some(sibs) => {
+            assert!(sibs.len() + 1 == exp_pieces, "JV-C01-SPLIT: pieces are cut where the running size passes half a page");
+            assert!(ib.nodes.len() == sibs.len(), "the new pieces are registered with the bucket");
+            let mut s = 0;
+            while s < 2 {
+                if s < sibs.len() {
+                    let n = sibs[s].borrow();
+                    let part = leaves(&n);
+                    assert!(part.len() >= 2, "every piece keeps at least two entries");
+                    let mut j = 0;
+                    while j < 6 {
+                        if j < part.len() {
+                            assert!(part[j].key()[0] == keys[next][0] && part[j].key()[1] == keys[next][1] && part[j].value().len() == vlen && (vlen == 0 || part[j].value()[0] == buf[next]), "entries stay in order across pieces");
+                            next += 1;
+                        }
+                        j += 1;
+                    }
+                }
+                s += 1;
+            }
+        }
+    }
+    assert!(next == 6, "JV-C01-SPLIT: no entry is lost or duplicated");
+    std::mem::forget(r);
+    std::mem::forget(node);
+    std::mem::forget(ib);
+}
+// @ob props=C01,C05,C16 tier=quick cap=600 mem=6 fns=Node::split,Node::size,NodeData::size,Leaf::size,NodeData::split_at,InnerBucket::new_node,Node::with_data bound="leaf node, 6 entries of 2-byte key + 50-byte value (84 bytes each; key tail and value bytes symbolic), page size 256: three pieces of two" unwind=8
+#[kani::proof]
+#[kani::unwind(8)]
+fn node_split_leaf_three_pieces() {
+    split_leaf_case(50, 256, 3);
+}
+// @ob props=C01,C05,C16 tier=quick cap=600 mem=6 fns=Node::split,Node::size,NodeData::size,Leaf::size bound="leaf node, 6 entries of 2-byte key + 2-byte value (36 bytes each, 256 with the header... 40 + 216), page size 512: fits, not split" unwind=8
+#[kani::proof]
+#[kani::unwind(8)]
+fn node_split_leaf_fits() {
+    split_leaf_case(2, 512, 1);
 }
